@@ -41,6 +41,9 @@ type validationContext struct {
 	loopDepth      int
 	switchDepth    int // switch nesting since the innermost loop body / continuing block began
 	inContinuing   bool
+	// loopExitBarred is true while break / continue would leave a continuing
+	// block; it is cleared inside the body of a loop nested in that block.
+	loopExitBarred bool
 	expressionUsed map[ExpressionHandle]bool
 }
 
@@ -556,12 +559,16 @@ func (v *Validator) validateStatement(index int, stmt *Statement) {
 		oldSwitchDepth := v.context.switchDepth
 		v.context.switchDepth = 0
 
+		oldBarred := v.context.loopExitBarred
+		v.context.loopExitBarred = false
 		v.validateBlock(kind.Body)
 
 		oldContinuing := v.context.inContinuing
 		v.context.inContinuing = true
+		v.context.loopExitBarred = true
 		v.validateBlock(kind.Continuing)
 		v.context.inContinuing = oldContinuing
+		v.context.loopExitBarred = oldBarred
 
 		if kind.BreakIf != nil {
 			if !v.isValidExpressionHandle(*kind.BreakIf) {
@@ -581,7 +588,7 @@ func (v *Validator) validateStatement(index int, stmt *Statement) {
 		if v.context.loopDepth == 0 {
 			v.addErrorInStatement(index, "break outside of loop")
 		}
-		if v.context.inContinuing {
+		if v.context.loopExitBarred {
 			v.addErrorInStatement(index, "break in continuing block")
 		}
 
@@ -589,7 +596,7 @@ func (v *Validator) validateStatement(index int, stmt *Statement) {
 		if v.context.loopDepth == 0 {
 			v.addErrorInStatement(index, "continue outside of loop")
 		}
-		if v.context.inContinuing {
+		if v.context.loopExitBarred {
 			v.addErrorInStatement(index, "continue in continuing block")
 		}
 
